@@ -3,6 +3,7 @@
 //!   verif replay <ID> <file>
 //!   verif worker            (internal)
 
+pub mod alloc_count;
 pub mod checks;
 pub mod g;
 pub mod harness;
@@ -11,6 +12,9 @@ pub mod proto;
 pub mod worker;
 
 use harness::{Ctx, Mode, Tier};
+
+#[global_allocator]
+static GLOBAL: alloc_count::Counting = alloc_count::Counting;
 
 fn usage() -> ! {
     eprintln!("usage: verif check <ID> [--tier quick|thorough] | verif replay <ID> <file> | verif list");
